@@ -39,7 +39,9 @@ RULE = ("all 36 ordered integer type pairs x the boundary lattice squared (exhau
         "values created in between); non-trivial = an op on two different types, an alias pair, a getter, a rendering or a "
         "lookup; eqapi: every pair of typed API entry points (C++ withParameter overload, explicit C++ method, C interface; "
         "expectation x actual, 18 x 18) with boundary / same-bits value pairs (thorough: lattice squared), the whole "
-        "expect/actual/checkExpectations scenario inside a real test; distinct = distinct op lists")
+        "expect/actual/checkExpectations scenario inside a real test; getret: every lattice value of every integer type "
+        "stored with andReturnValue and read back through all 24 integer readers (MockActualCall and mock() level, plain and "
+        "...OrDefault), each in a fresh test, plus the no-return-value case; distinct = distinct op lists")
 
 RANGE = {
     "int": (-2**31, 2**31 - 1), "uint": (0, 2**32 - 1),
@@ -359,7 +361,15 @@ def generate(rng, tier):
                         ops.append("eqapi %s.%s:%d %s.%s:%d" % (ea, ke, x, aa, ka, y))
     for c in chunks(ops, 48):
         out.append(("eqapi", c))
-    # 9. malformed stream: tokens the harness must reject (`> skip`) mixed with valid ones
+    # 9. return values read back through every integer reader of MockActualCall and of mock() (plain and …OrDefault)
+    ops = ["getret %s %d" % (tok(k, v), rng.randint(0, 100)) for k in INT_KINDS for v in lattice_of(k)]
+    ops += ["getret none %d" % d for d in (0, 1, 41, 100)]
+    for _ in range(80 if tier == "quick" else 3000):
+        k = rng.choice(INT_KINDS)
+        ops.append("getret %s %d" % (tok(k, rand_int(rng, k)), rng.randint(0, 100)) if rng.random() < 0.95 else "getret none %d" % rng.randint(0, 100))
+    for c in chunks(ops, 8):
+        out.append(("getret", c))
+    # 10. malformed stream: tokens the harness must reject (`> skip`) mixed with valid ones
     bad = ["int:2147483648", "int:-2147483649", "uint:-1", "uint:4294967296", "long:9223372036854775808", "ulong:-1",
            "ulong:18446744073709551616", "llong:-9223372036854775809", "ullong:99999999999999999999999", "int:", "int:abc",
            "int:1.5", "bool:2", "dbl:123", "dbl:zz:zz", "str:6", "str:zz", "mem:0", "ptr:99", "fptr:-1", "obj::1", "obj:A+B:1",
@@ -381,7 +391,8 @@ def generate(rng, tier):
                                        "rcmp 9 T1 1", "rcmp 0 T1 0", "rcmp 0 T1 5", "rcop 0 T1 3", "rcmp 0 int 1", "rget 4 T1",
                                        "rimport 0 7", "rdefault 5", "rclear x", "getx", "dbld:12",
                                        "eqapi ovl.int:1", "eqapi foo.int:1 c.int:1", "eqapi ovl.int:4294967296 c.int:1",
-                                       "eqapi c.ullong:-1 c.int:1", "eqapi c.bool:1 c.int:1", "eqapi ovl.int c.int:1"]))
+                                       "eqapi c.ullong:-1 c.int:1", "eqapi c.bool:1 c.int:1", "eqapi ovl.int c.int:1",
+                                       "getret int:1", "getret int:1 101", "getret int:4294967296 1", "getret bool:1 1", "getret none"]))
         out.append(("malformed", ops))
     return out
 
@@ -413,7 +424,7 @@ def nontrivial(r):
             k = _kinds(l[2:])
             if len(k) == 2 and k[0] != k[1]:
                 return True
-        if l.split()[:2][-1] in ("tostr", "compat", "getx", "lget", "rget", "rimport", "eqapi"):
+        if l.split()[:2][-1] in ("tostr", "compat", "getx", "lget", "rget", "rimport", "eqapi", "getret"):
             return True
     return False
 
@@ -464,6 +475,8 @@ def observe(r, rep):
             rep.count("eqapi.%s-%s.%s" % (e[0], a[0], "pass" if w[1] == "1" else "fail"))
             if int(cur[1].split(":")[1]) != int(cur[2].split(":")[1]) and (int(cur[1].split(":")[1]) - int(cur[2].split(":")[1])) % 2**32 == 0:
                 rep.count("eqapi.same_bits_different_integer")
+        elif cur[0] == "getret" and len(w) >= 2 and "." in w[0]:
+            rep.count("retreader.%s.%s" % ("orDefault" if "OrDefault" in w[0] else "plain", w[1] if cur[1] != "none" else "none_" + w[1]))
         elif cur[0] == "compat" and w[0] == "c":
             rep.count("compatibleForCopying.%s%s" % (w[1], w[2]))
         elif cur[0] == "lget" and w[0] == "item":
@@ -484,6 +497,10 @@ def signature(r):
             return "spec:" + re.sub(r"\d+", "N", r.spec[10:])[:120]
         kinds = "-".join(t.split(":")[0] for t in m.group(2).split())
         what = m.group(3)
+        if m.group(1) == "getret":       # class = the reader and the kind of error
+            r = re.match(r"([\w.]+)(\(\d+\))? (returned|failed)", what)
+            return "spec:getret:%s:%s" % (r.group(1), "wrong number" if r.group(3) == "returned" else "failed without a return value") \
+                if r else "spec:getret:" + re.sub(r"-?\d+", "N", what)[:80]
         if m.group(1) == "eqapi":        # class = the two entry points and the direction of the error
             kinds = "-".join(t.split(".")[0] for t in m.group(2).split())
             what = what.split(":")[0]
